@@ -12,6 +12,7 @@ import (
 	"fmt"
 	"os"
 	"path/filepath"
+	"regexp"
 	"sort"
 	"strconv"
 	"strings"
@@ -160,7 +161,7 @@ func emit(args []string) {
 			vhlib.Fatal("%v", err)
 		}
 		must(os.WriteFile(filepath.Join(dir, "env.go"), []byte(envGo), 0o644))
-		must(os.WriteFile(filepath.Join(dir, "helpers.templ"), []byte(templang.Header("main")), 0o644))
+		must(os.WriteFile(filepath.Join(dir, "helpers.templ"), []byte(templang.HeaderV("main", 0)), 0o644))
 		var reg strings.Builder
 		reg.WriteString("package main\n\nimport \"github.com/a-h/templ\"\n\nvar entries = []entry{\n")
 		for _, t := range ts[i:j] {
@@ -230,6 +231,8 @@ type cursor struct {
 	items []item
 	i     int // item index
 	off   int // offset inside a text item
+
+	bound map[string]string // names the document itself fixes: the css class id, the script function name
 }
 
 // skipSpace advances over whitespace (and exhausted text items) and reports whether any was seen.
@@ -250,9 +253,17 @@ func (c *cursor) skipSpace() bool {
 	return seen
 }
 
+var defPatterns = map[string]*regexp.Regexp{
+	"cssB":    regexp.MustCompile(`^\.(boxed_[0-9a-f]{8})\{color:red;--brandColor:blue;\}$`),
+	"scriptG": regexp.MustCompile(`^function (__templ_greet_[0-9a-f]{4})\(a\)\{alert\(a\);\s*\}$`),
+}
+
 func attrValue(id string) string {
 	if id == "" {
 		return ""
+	}
+	if id == "textcss" {
+		return "text/css"
 	}
 	if v, ok := templang.ConstDecoded[id]; ok {
 		return v
@@ -267,6 +278,15 @@ func attrValue(id string) string {
 func expand(toks []templang.Tok) []templang.Tok {
 	var out []templang.Tok
 	for _, t := range toks {
+		if t.T == "def" {
+			// a definition written in front of a start tag: <style type="text/css">...</style> or <script>...</script>
+			el, attrs := "script", []templang.TokAttr(nil)
+			if t.N == "cssB" {
+				el, attrs = "style", []templang.TokAttr{{N: "type", V: "textcss"}}
+			}
+			out = append(out, templang.Tok{T: "open", N: el, G: t.G, Attrs: attrs}, templang.Tok{T: "deftext", N: t.N, G: "mustnot"}, templang.Tok{T: "close", N: el, G: "mustnot"})
+			continue
+		}
 		if t.T == "raw" {
 			el := templang.RawElement(t.N)
 			out = append(out, templang.Tok{T: "open", N: el, G: t.G}, templang.Tok{T: "rawtext", N: t.N, G: "mustnot"}, templang.Tok{T: "close", N: el, G: "mustnot"})
@@ -279,7 +299,7 @@ func expand(toks []templang.Tok) []templang.Tok {
 
 // match walks the denoted token sequence over the real token stream.
 func match(toks []templang.Tok, items []item) (ok bool, why string) {
-	c := &cursor{items: items}
+	c := &cursor{items: items, bound: map[string]string{}}
 	for k, t := range expand(toks) {
 		gap := c.skipSpace()
 		where := fmt.Sprintf("token %d (%s %s)", k+1, t.T, t.N)
@@ -299,6 +319,19 @@ func match(toks []templang.Tok, items []item) (ok bool, why string) {
 				return false, fmt.Sprintf("%s: expected text %q, found %s %q", where, want, it.kind, it.name+it.data)
 			}
 			c.off += len(want)
+		case "deftext":
+			// the definition names itself (the id holds a hash of the body); the uses must agree with it
+			re := defPatterns[t.N]
+			m := re.FindStringSubmatch(it.data)
+			if it.kind != "text" || m == nil {
+				return false, fmt.Sprintf("%s: expected a definition matching %s, found %s %q", where, re, it.kind, it.name+it.data)
+			}
+			if t.N == "cssB" && m[1] != templang.CSSClassID("boxed", "color:red;--brandColor:blue;") {
+				return false, fmt.Sprintf("%s: class id %q is not name + hash of the css text (%q)", where, m[1], templang.CSSClassID("boxed", "color:red;--brandColor:blue;"))
+			}
+			c.bound[t.N] = m[1]
+			c.i++
+			c.off = 0
 		case "open", "close":
 			if it.kind != t.T || it.name != t.N {
 				return false, fmt.Sprintf("%s: found %s %q", where, it.kind, it.name+it.data)
@@ -309,8 +342,15 @@ func match(toks []templang.Tok, items []item) (ok bool, why string) {
 				}
 				for ai, a := range t.Attrs {
 					ra := it.attrs[ai]
-					if ra.Key != strings.ToLower(a.N) || ra.Val != attrValue(a.V) {
-						return false, fmt.Sprintf("%s: attribute %d is %s=%q, expected %s=%q", where, ai+1, ra.Key, ra.Val, strings.ToLower(a.N), attrValue(a.V))
+					want := attrValue(a.V)
+					switch a.V {
+					case "CSSB":
+						want = c.bound["cssB"]
+					case "SCRG":
+						want = c.bound["scriptG"] + `("x")`
+					}
+					if ra.Key != strings.ToLower(a.N) || ra.Val != want || want == "" && (a.V == "CSSB" || a.V == "SCRG") {
+						return false, fmt.Sprintf("%s: attribute %d is %s=%q, expected %s=%q", where, ai+1, ra.Key, ra.Val, strings.ToLower(a.N), want)
 					}
 				}
 			}
